@@ -270,6 +270,8 @@ def epr_receive(conn, sock, variant, number, expect_phi_plus, extra_qubits):
         qs, _ = sock.recv_keep_with_info(number=number, expect_phi_plus=expect_phi_plus)
     elif variant == "recv_keep_post":
         qs = sock.recv_keep(number=number, sequential=True, post_routine=_noop_post, expect_phi_plus=expect_phi_plus)
+    elif variant == "recv_keep_post_nonseq":
+        qs = sock.recv_keep(number=number, sequential=False, post_routine=_noop_post, expect_phi_plus=expect_phi_plus)
     elif variant == "recv_rsp":
         qs = sock.recv_rsp(number=number, expect_phi_plus=expect_phi_plus)
     elif variant == "recv_rsp_with_info":
